@@ -1206,3 +1206,7 @@ B('C12', 'import order asked for before the theory\'s own entry is re-validated'
   "    cache = theory_cache[username][filename]\n\n    # Load imported theories\n    depend_list = get_import_order(cache['imports'], username)\n    load_theory_cache(filename, username)", 'C12.L13', '')
 N('C12', 'load_theory uses the entry returned by load_theory_cache', 'logic/basic.py',
   "    load_theory_cache(filename, username)\n    \n    cache = theory_cache[username][filename]\n", "    cache = load_theory_cache(filename, username)\n")
+B('C11', 'constructor recorded whatever type variables its type mentions', 'server/items.py',
+  "                if any(tv not in resT.args for tv in constr_type.get_tvars()):\n                    raise ItemException(\"Datatype %s: %s has a type variable that is not a parameter of the datatype\" % (\n                        self.name, constr['name']))\n", "", 'C11.D11', 'type-variables-are-parameters')
+N('C11', 'type variables of a constructor tested with all()', 'server/items.py',
+  "                if any(tv not in resT.args for tv in constr_type.get_tvars()):", "                if not all(tv in resT.args for tv in constr_type.get_tvars()):")
